@@ -329,11 +329,13 @@ func (s *streamGRPC) SendMsg(m interface{}) error {
 		return err
 	}
 
-	var size uint32
-	size = uint32(len(b) - 5)
-	if int(size) > s.opts.maxReceiveMessageSize {
-		return fmt.Errorf("grpc: received message larger than max (%d vs. %d)", size, s.opts.maxReceiveMessageSize)
+	// The reply is checked against the send limit, before its length is
+	// narrowed to the four bytes of the frame header.
+	n := len(b) - 5
+	if n > s.opts.maxSendMessageSize || uint64(n) > math.MaxUint32 {
+		return fmt.Errorf("grpc: trying to send message larger than max (%d vs. %d)", n, s.opts.maxSendMessageSize)
 	}
+	size := uint32(n)
 
 	b[0] = 0 // uncompressed
 	if s.comp != nil {
